@@ -599,7 +599,9 @@ func c10LinkRace(ev *vlib.Evidence, driver string, s store.Store, idx int) {
 func c10NodeRace(ev *vlib.Evidence, driver string, s store.Store, idx int) {
 	r := vlib.Rand("C10-node-"+driver, idx)
 	id := store.NodeID(fmt.Sprintf("nr%d", idx))
-	s.SetNode(store.Node{ID: id, IsHost: true, Kind: "geth", Payout: "0xP", URI: "enode://x@1.2.3.4:1", NodeVersion: "v1", LastSeen: time.Now()})
+	first := store.Node{ID: id, IsHost: true, Kind: "geth", URI: "enode://x@1.2.3.4:1", NodeVersion: "v1", LastSeen: time.Now()}
+	vlib.SetPayout(&first, "0xP")
+	s.SetNode(first)
 	var wg sync.WaitGroup
 	stop := make(chan struct{})
 	for g := 0; g < 2; g++ {
@@ -621,9 +623,11 @@ func c10NodeRace(ev *vlib.Evidence, driver string, s store.Store, idx int) {
 		last = store.Node{ID: id, LastSeen: time.Now()}
 		if k%2 == 0 {
 			// fields going back to their zero values are the interesting direction
-			last.IsHost, last.Kind, last.Payout, last.URI, last.NodeVersion = false, "", "", "", ""
+			last.IsHost, last.Kind, last.URI, last.NodeVersion = false, "", "", ""
+			vlib.SetPayout(&last, "")
 		} else {
-			last.IsHost, last.Kind, last.Payout, last.URI, last.NodeVersion = true, "parity", "0xQ", "enode://y@5.6.7.8:2", "v2"
+			last.IsHost, last.Kind, last.URI, last.NodeVersion = true, "parity", "enode://y@5.6.7.8:2", "v2"
+			vlib.SetPayout(&last, "0xQ")
 		}
 		s.SetNode(last)
 		if r.Intn(2) == 0 {
@@ -635,7 +639,7 @@ func c10NodeRace(ev *vlib.Evidence, driver string, s store.Store, idx int) {
 	got, err := s.GetNode(id)
 	ev.Case(fmt.Sprintf("node-race %s idx=%d", driver, idx), true)
 	ev.Count("node-race-rounds", 1)
-	if err != nil || got.IsHost != last.IsHost || got.Kind != last.Kind || got.Payout != last.Payout || got.URI != last.URI || got.NodeVersion != last.NodeVersion {
+	if err != nil || got.IsHost != last.IsHost || got.Kind != last.Kind || vlib.PayoutString(got) != vlib.PayoutString(&last) || got.URI != last.URI || got.NodeVersion != last.NodeVersion {
 		g := "error: " + fmt.Sprint(err)
 		if err == nil {
 			g = vlib.NodeFields(*got)
